@@ -21,6 +21,22 @@ type c04Input struct {
 	Mode  string  `json:"mode"`  // "bound" (preemption-bounded), "all" (every interleaving), "perm" (gated completion order)
 	Bound int     `json:"bound"` // for mode bound
 	Perm  []int   `json:"perm,omitempty"`
+	// Empty: every second record has an empty message; timestamps are then made unique (container i, record j:
+	// +1000i+j ns) so that a record is still identified by its timestamp.
+	Empty bool `json:"empty,omitempty"`
+	// TwoNames: every container is known to the daemon under two names (it is still one container).
+	TwoNames bool `json:"two_names,omitempty"`
+}
+
+func c04Rec(in c04Input, i, j, ts int) (msg string, ns int64) {
+	if !in.Empty {
+		return fmt.Sprintf("c%d#%d", i, j), int64(ts) * sec
+	}
+	ns = int64(ts)*sec + int64(1000*i+j)
+	if j%2 == 0 {
+		return "", ns
+	}
+	return fmt.Sprintf("c%d#%d", i, j), ns
 }
 
 func c04Containers(in c04Input) []fakedocker.Container {
@@ -28,19 +44,20 @@ func c04Containers(in c04Input) []fakedocker.Container {
 	for i, seq := range in.Logs {
 		var recs []fakedocker.Rec
 		for j, ts := range seq {
-			recs = append(recs, fakedocker.Rec{
-				Stream: byte(1 + (i+j)%2),
-				TS:     fakedocker.TS(int64(ts) * sec),
-				Msg:    fmt.Sprintf("c%d#%d", i, j),
-			})
+			msg, ns := c04Rec(in, i, j, ts)
+			recs = append(recs, fakedocker.Rec{Stream: byte(1 + (i+j)%2), TS: fakedocker.TS(ns), Msg: msg})
 		}
-		ctrs = append(ctrs, fakedocker.Container{
+		ctr := fakedocker.Container{
 			ID:    fmt.Sprintf("id%d", i),
 			Name:  fmt.Sprintf("/n%d", i),
 			Image: "img",
 			State: "running",
 			Log:   fakedocker.Encode(recs),
-		})
+		}
+		if in.TwoNames {
+			ctr.Names = []string{fmt.Sprintf("/n%d", i), fmt.Sprintf("/other/alias%d", i)}
+		}
+		ctrs = append(ctrs, ctr)
 	}
 	return ctrs
 }
@@ -62,7 +79,8 @@ func c04Oracle(in c04Input, o selectObs) string {
 	allOrdered := true
 	for i, seq := range in.Logs {
 		for j, ts := range seq {
-			want[fmt.Sprintf("c%d#%d@%d", i, j, int64(ts)*sec)]++
+			msg, ns := c04Rec(in, i, j, ts)
+			want[fmt.Sprintf("%s@%d", msg, ns)]++
 			total++
 			if j > 0 && seq[j-1] > ts {
 				allOrdered = false
@@ -87,6 +105,14 @@ func c04Oracle(in c04Input, o selectObs) string {
 	for _, e := range o.Out {
 		at := strings.LastIndexByte(e, '@')
 		hash := strings.IndexByte(e, '#')
+		if hash < 0 { // empty message: identified by its unique timestamp only
+			ts, _ := strconv.ParseInt(e[at+1:], 10, 64)
+			if allOrdered && ts < prevTS {
+				return fmt.Sprintf("timestamps decrease in merged stream at %s", e)
+			}
+			prevTS = ts
+			continue
+		}
 		c := e[:hash]
 		j, _ := strconv.Atoi(e[hash+1 : at])
 		ts, _ := strconv.ParseInt(e[at+1:], 10, 64)
@@ -248,6 +274,11 @@ func c04Run(r *vkit.Run) {
 	}
 	for _, logs := range sel {
 		emit(c04Input{Logs: logs, Mode: "all"})
+	}
+	// (b') records with empty messages are records too
+	for _, logs := range [][][]int{{{1, 2}, {1, 2}}, {{1}, {1}, {1}}, {{2, 2, 3}, {1, 3}}, {{1, 1, 1}, {}, {1}}} {
+		emit(c04Input{Logs: logs, Mode: "bound", Bound: 1, Empty: true})
+		emit(c04Input{Logs: logs, Mode: "bound", Bound: 1, TwoNames: true})
 	}
 	// (c) every completion order of the concurrent opens for N = 2..5.
 	maxN := 5
